@@ -2,7 +2,7 @@
 from reg._common import COMMON_ASSUME
 
 ENTRY = {
-    'lean_files': ['Props/C18.lean', 'Props/C02Pipeline.lean'],
+    'lean_files': ['Props/C18.lean', 'Props/C18Merge.lean', 'Props/C02Pipeline.lean'],
     'lemma_files': ['Model/GeometricInst.lean', 'Model/Helpers.lean', 'Model/Newton.lean', 'Model/Locate.lean', 'Lemmas/Pipeline.lean', 'Lemmas/Lipschitz.lean', 'Lemmas/Subdivide.lean', 'Model/Basic.lean', 'Model/Curve.lean',
                     'Model/Geometric.lean', 'Model/Self.lean', 'Model/Solve2x2.lean'],
     'script': 'props/c18.py',
